@@ -2,4 +2,4 @@
 # debug helper: run one M obligation verbosely in the background; logs in /tmp/m-<name>.{out,err}
 N=$1; shift
 cd /verif
-MIRSMT_VERBOSE=1 timeout ${TMO:-900} python3-vt mirsmt/run_one.py $N --tier ${TIER:-quick} --mir $(ls /root/.cache/verif-work/mir/chrono-*.mir) --src $(ls -d /root/.cache/verif-work/mir/src-*) --probe /root/.cache/verif-work/probe/target/debug/chrono-verif-probe "$@" > /tmp/m-$N.out 2> /tmp/m-$N.err &
+MIRSMT_VERBOSE=1 timeout ${TMO:-900} python3-vt mirsmt/run_one.py $N --tier ${TIER:-quick} --mir $(ls /root/.cache/verif-work/mir/chrono-*-${FEAT:-std}.mir | head -n 1) --src $(ls -d /root/.cache/verif-work/mir/src-*) --probe /root/.cache/verif-work/probe/target/debug/chrono-verif-probe "$@" > /tmp/m-$N.out 2> /tmp/m-$N.err &
